@@ -346,9 +346,46 @@ def r_provenance(ctx):
         Tc = ctx.tparam(cp) if cf.get("kind") != "Closure" else T
         for tt, I in ctx.arms(cp) or []:
             res.inst(sample={"destructor": cp, "element_type": Tc}, func=cp)
-            ds = I.all_effects(("DESTROY",))
+            ds_all = I.all_effects(("DESTROY",))
+            ds = [d for d in ds_all if not _on_unwind_path(I, d) and not implies(d["facts"], ("eq0", as_poly(d["n"])))]
+            ds_all = [d for d in ds_all if d in ds or _on_unwind_path(I, d)]
             if len(ds) != 1 or ds[0]["ety"] != Tc or as_poly(ds[0]["n"]) != Poly.const(1):
                 res.fail(cp, "destroy", "erased destructor must drop exactly one %s per iteration" % Tc, span=ctx.span_of(cp))
+                continue
+            # destructor calls on the unwind path (a scope guard that destroys the rest when an element's destructor panics): permitted, but never over the
+            # element whose destructor is unwinding
+            bad_guard = False
+            for du in ds_all:
+                if du is ds[0]:
+                    continue
+                up = du["ptr"]
+                if isinstance(up, tuple) and up[:1] == ("phi",):
+                    # the guard's pointer is joined over several unwind sources at the landing pad: take its value on the unwind edge that leaves the
+                    # in-flight destructor call itself
+                    for (s_, k_) in I.g.nodes[ds[0].gid].succs:
+                        if k_ == "unwind":
+                            v_ = I.out_value(ds[0].gid, up[2], s_)
+                            if v_ is not None:
+                                up = v_
+                def as_parts(v_):
+                    pp_ = ptr_parts(v_)
+                    return pp_ if pp_ else (("PBASE", v_), Poly(), Tc)      # an opaque pointer is itself + 0
+                p0, pu = as_parts(ds[0]["ptr"]), as_parts(up)
+                ahead = None
+                if p0 and pu and p0[0] == pu[0]:
+                    delta = pu[1] - p0[1]
+                    c = delta.const_value()
+                    sz = Poly.atom(("SIZEOF", Tc))
+                    if delta == sz or (c is not None and c >= 1 and du["ety"] == Tc) or (len(delta.m) == 1 and delta.m.get((("SIZEOF", Tc),), 0) >= 1):
+                        ahead = True
+                    elif not delta.m:
+                        ahead = False
+                if ahead is not True:
+                    res.fail(cp, "unwind-destroys-in-flight", "a destructor call on the unwind path of the erased destructor covers %s, which %s the element whose "
+                             "destructor is unwinding (%s): that element is destroyed twice" % (du["ptr"], "is" if ahead is False else "may include", ds[0]["ptr"]),
+                             span=span_of_effect(du))
+                    bad_guard = True
+            if bad_guard:
                 continue
             if _elementwise_loop(ctx, res, cp, I, ds[0], Tc, Poly.atom(("param", cf.get("arg_count", 2))), "erased destructor"):
                 res.ok()
@@ -452,6 +489,18 @@ def r_provenance(ctx):
 
 def _in_cycle(I, gid):
     return gid in I.reachable_from(gid)
+
+
+def _on_unwind_path(I, e):
+    """the effect sits in a cleanup block, or in a function expanded at a node of the unwind path (drop glue of a scope guard run while unwinding)"""
+    if e.node.cleanup:
+        return True
+    inst = e.node.inst
+    while inst is not None and inst.parent is not None:
+        if I.g.nodes[inst.call_gid].cleanup:
+            return True
+        inst = inst.parent
+    return False
 
 
 def _elementwise_loop(ctx, res, p, I, body_eff, T, LEN, what):
@@ -1481,6 +1530,25 @@ def r_stackcap(ctx):
                 ok = False
             if ok:
                 res.ok()
+    # the storage pointer of the inline backends is the start of the inline buffer: the capacities above are computed for the whole buffer, so any
+    # offset into it (an alignment fix-up, a header) makes the last elements lie beyond the buffer
+    for im in fx.impls_of("mem::Mem"):
+        adt = im["self_ty"].get("path")
+        if adt not in ("mem::stack::StackMem", "mem::stack_n::StackNMem"):
+            continue
+        for it in im["items"]:
+            if it["name"] not in ("as_ptr", "as_mut_ptr"):
+                continue
+            for tt, I in ctx.arms(it["path"]) or []:
+                rets = I.all_effects(("RETURN",))
+                v = rets[0]["value"] if rets else None
+                pp = ptr_parts(v)
+                res.inst(sample={"backend": adt, "method": it["name"], "pointer": str(v)}, func=it["path"])
+                if pp and isinstance(pp[0], tuple) and pp[0][0] == "FIELD" and not pp[1].m:
+                    res.ok()
+                else:
+                    res.fail(it["path"], "storage-offset", "the storage pointer of an inline backend is %s, expected the start of the inline buffer (offset 0): "
+                             "the capacity is computed for the whole buffer, elements at the end would lie outside it" % (v,), span=ctx.span_of(it["path"]))
     sp = sizes.get("mem::stack::StackMem")
     for tt, I in ctx.arms(sp) or [] if sp else []:
         rets = I.all_effects(("RETURN",))
